@@ -249,7 +249,9 @@ class ParseMCNPCell:
             elif 'trcl' in elt:
                 keywords['trcl'] = self.parse_trcl_kw(elt, kw_list)
             elif elt == 'u':
-                keywords['u'] = int(float(kw_list.pop()))
+                # a negative universe number only tells MCNP that the cell is
+                # not truncated by the filled cell: the universe is |n|
+                keywords['u'] = abs(int(float(kw_list.pop())))
             elif 'rho' in elt:
                 # only relevant for LIKE n BUT cells
                 keywords['density'] = kw_list.pop()
